@@ -14,6 +14,7 @@ HARNESSES = {
     'c08': dict(flavour='asan', srcs=['c08.cpp']),
     'c18': dict(flavour='asan', srcs=['c18.cpp']),
     'c10': dict(flavour='asan', srcs=['c10.cpp']),
+    'c16': dict(flavour='asan', srcs=['c16.cpp']),
 }
 
 PROPS = {
@@ -230,6 +231,23 @@ PROPS = {
                      'at open time (read fails with EISDIR) or EACCES at open',
                      'a fault from tick 0 may make plugin init fail; a clean rejection is accepted'],
     ),
+    'C16': dict(
+        harness='c16', level='exploration',
+        quick=dict(shards=16, deep=False, gen_shards=4, n=5000, size=100),
+        thorough=dict(shards=16, deep=True, gen_shards=16, n=200000, size=100),
+        rule='exhaustive enumeration (in batches) of all strings over {a,b,/,*,?,.}: unary laws (canonical form, '
+             'absolute = root + / + relative for three spellings of the root, parts, isRoot, getChild/getParent '
+             'identity, multi-component getChild, equality and hash vs absolute-path equality, the comma-separated '
+             'cgroup argument parser) up to length 5 (thorough: 6); the prekill pattern relation for all (path, pattern) '
+             'pairs up to length 3 (thorough: 4) against the three-case reference; resolveWildcard for all patterns up '
+             'to length 4 (thorough: 5) on three tmpfs trees (dot-names, plain files shadowing directories, literal * '
+             'and ? in names, siblings of the fs root sharing its prefix) against a component-wise glob model; plus '
+             'rapidcheck random longer strings (<=16) incl. other punctuation. Non-trivial = a string needing '
+             'canonicalisation, a pattern containing * against a non-root path, or a metacharacter pattern resolving to '
+             '>=1 directory while a same-named plain file also matches; distinct by (kind, strings).',
+        assumptions=['patterns with a "." or ".." component are path navigation, not cgroup names: excluded from '
+                     'resolution and counted'],
+    ),
 }
 
 
@@ -278,6 +296,25 @@ def run_C10(r, spec, tier):
     if not enum['completed']:
         r.notes.append('enumeration did not finish within its time budget (inconclusive part)')
         r.inconclusive += 1
+    cov['samples'] = (enum['samples'] + cov['samples'])[:3]
+    for k, v in enum['labels'].items():
+        cov['labels'][k] = cov['labels'].get(k, 0) + v
+    cov['replayed'] = nrep
+    return cov
+
+
+def run_C16(r, spec, tier):
+    nrep = r.replay_tier(spec['harness'])
+    env = {'VP_C16_DEEP': '1'} if tier['deep'] else {}
+    enum = r.enumerate(spec['harness'], 'enum', tier['shards'], extra_env=env)
+    agg = r.campaign(spec['harness'], 'rand', tier['gen_shards'], tier['n'], tier['size'], extra_env=env)
+    cov = cov_from(agg)
+    cov['evaluations'] += enum['evaluations']
+    cov['distinct_nontrivial'] = len(agg['hashes'] | enum['hashes'])
+    cov['exhaustive'] = bool(enum['completed'])
+    cov['enumerated'] = dict(evaluations=enum['evaluations'], batches=enum['total_cases'], completed=enum['completed'],
+                             lengths=dict(unary=6 if tier['deep'] else 5, pattern_pairs=4 if tier['deep'] else 3,
+                                          resolve=5 if tier['deep'] else 4))
     cov['samples'] = (enum['samples'] + cov['samples'])[:3]
     for k, v in enum['labels'].items():
         cov['labels'][k] = cov['labels'].get(k, 0) + v
